@@ -13,14 +13,14 @@ import NV.C06.Spec
 
 namespace NV.C06
 
-/-- a deallocated cell keeps no items -/
-def DeadEmpty (s : St) : Prop := ∀ d ∈ s.heap, d.live = false → d.items = []
+/-- a deallocated cell keeps no items and its counter is 0 (dealloc_* releases the items; the counter reached 0) -/
+def DeadEmpty (s : St) : Prop := ∀ d ∈ s.heap, d.live = false → d.items = [] ∧ d.ref = 0
 
 theorem DE_heap_eq (s s' : St) (e : s'.heap = s.heap) (h : DeadEmpty s) : DeadEmpty s' := by
   unfold DeadEmpty; rw [e]; exact h
 
 theorem DE_set (s : St) (h' : List Cell) (c : Nat) (x : Cell) (e : h' = s.heap.set c x) (h : DeadEmpty s)
-    (hx : x.live = false → x.items = []) : DeadEmpty { s with heap := h' } := by
+    (hx : x.live = false → x.items = [] ∧ x.ref = 0) : DeadEmpty { s with heap := h' } := by
   intro d hd
   simp only at hd
   rw [e] at hd
@@ -28,11 +28,11 @@ theorem DE_set (s : St) (h' : List Cell) (c : Nat) (x : Cell) (e : h' = s.heap.s
   · exact h d hm
   · rw [he]; exact hx
 
-theorem DE_setCell (s : St) (c : Nat) (x : Cell) (h : DeadEmpty s) (hx : x.live = false → x.items = []) :
+theorem DE_setCell (s : St) (c : Nat) (x : Cell) (h : DeadEmpty s) (hx : x.live = false → x.items = [] ∧ x.ref = 0) :
     DeadEmpty (s.setCell c x) := DE_set s _ c x rfl h hx
 
 theorem DE_append (s : St) (h' : List Cell) (x : Cell) (e : h' = s.heap ++ [x]) (h : DeadEmpty s)
-    (hx : x.live = true) : ∀ d ∈ h', d.live = false → d.items = [] := by
+    (hx : x.live = true) : ∀ d ∈ h', d.live = false → d.items = [] ∧ d.ref = 0 := by
   intro d hd hl
   rw [e] at hd
   rcases List.mem_append.mp hd with hm | hm
@@ -101,9 +101,24 @@ theorem rel1_DE (s s' : St) (h : rel1 s = .ok s') (de : DeadEmpty s) : DeadEmpty
             · cases h
             · cases h
               unfold St.upd
+              rename_i hdd _ _
               apply DE_set s _ c _ rfl de
               intro _
-              rfl
+              refine ⟨rfl, ?_⟩
+              have hd2 : (decRef cell.kind cell.ref).2 = true := by simpa using hdd
+              show (decRef cell.kind cell.ref).1 = 0
+              unfold decRef at hd2 ⊢
+              split
+              · rename_i hk
+                rw [if_pos hk] at hd2
+                split
+                · rfl
+                · rename_i h0
+                  rw [if_neg h0] at hd2
+                  simpa using hd2
+              · rename_i hk
+                rw [if_neg hk] at hd2
+                simpa using hd2
 
 theorem relLoop_DE : ∀ (f depth : Nat) (s s' : St), relLoop f depth s = .ok s' → DeadEmpty s → DeadEmpty s' := by
   intro f
@@ -362,6 +377,55 @@ theorem holders_eq_H (s : St) (de : DeadEmpty s) (c : Nat) : holders s c = H s c
   intro d hd
   cases hl : d.live with
   | true => simp [cnt]
-  | false => simp [de d hd hl, cnt]
+  | false => simp [(de d hd hl).1, cnt]
+
+
+/-- **collect1_fixes_model_state.**  The oracle's declarative step "every existing value nobody refers to disappears,
+    every counter is the number of holders" changes nothing on a state in which every live cell's counter is its
+    (positive) oracle holder count and every deallocated cell has no holders: such a state is already a fixpoint. -/
+theorem collect1_fix (s : St) (de : DeadEmpty s)
+    (hlive : ∀ (c : Nat) (cell : Cell), s.heap[c]? = some cell → cell.live = true → cell.ref = holders s c ∧ 0 < holders s c)
+    (hdead : ∀ (c : Nat) (cell : Cell), s.heap[c]? = some cell → cell.live = false → holders s c = 0) :
+    collect1 s = (s, false) := by
+  have key : ∀ (i : Nat) (hi : i < s.heap.length),
+      (if (s.heap[i].live && holders s i == 0) = true then { s.heap[i] with live := false, items := [], ref := 0 }
+       else { s.heap[i] with ref := holders s i }) = s.heap[i] ∧ (s.heap[i].live && holders s i == 0) = false := by
+    intro i hi
+    have hc : s.heap[i]? = some s.heap[i] := List.getElem?_eq_getElem hi
+    cases hl : s.heap[i].live with
+    | true =>
+      have := hlive i _ hc hl
+      have hne : (holders s i == 0) = false := by
+        cases h0 : holders s i with
+        | zero => omega
+        | succ n => rfl
+      simp only [hne, Bool.and_false, Bool.false_eq_true, if_false]
+      refine ⟨?_, trivial⟩
+      rw [← this.1]
+    | false =>
+      have h0 := hdead i _ hc hl
+      have hr := (de _ (List.getElem_mem hi) hl).2
+      simp only [Bool.false_and, Bool.false_eq_true, if_false]
+      refine ⟨?_, trivial⟩
+      rw [h0, ← hr]
+  unfold collect1
+  simp only
+  congr 1
+  · show { s with heap := _ } = s
+    have : (List.map (fun x => if (x.1.live && x.2 == 0) = true then { x.1 with live := false, items := [], ref := 0 } else { x.1 with ref := x.2 })
+        (s.heap.zip (List.map (holders s) (List.range s.heap.length)))) = s.heap := by
+      apply List.ext_getElem
+      · simp
+      · intro i h1 h2
+        simp only [List.getElem_map, List.getElem_zip, List.getElem_range]
+        exact (key i h2).1
+    rw [this]
+  · rw [List.any_eq_false]
+    intro x hx
+    rcases List.getElem_of_mem hx with ⟨i, hi, e⟩
+    subst e
+    simp only [List.getElem_zip, List.getElem_map, List.getElem_range]
+    have hi' : i < s.heap.length := by simpa using hi
+    simpa using (key i hi').2
 
 end NV.C06
